@@ -24,7 +24,7 @@ c("C03", True, PBT + "generated polygons on every accepted built-in set and id; 
   "Trusted: document numbers, pointindex.DeviationStats as the reported deviation (per the property statement), float64 arithmetic with the stated tolerance (dev + 1e-9 + 4 ulp).",
   "DESIGN.md §5 C03")
 c("C04", True, PBT + "valid-polygon generators + three exact validity predicates (vertex provenance, half-pixel Chebyshev corridor via closed-box separating-axis test, coverage at lattice sample locations)",
-  "10 000 (quick) / 1.6 M (thorough) valid polygons incl. holes and collapse-prone templates; every output vertex must be the centre of a pixel holding an input vertex, sampled points of every output edge must stay within half a pixel of the input boundary, and every sampled location farther than a pixel from the boundary must be covered iff the input covers it. Clause 2 and 3 are sampled (one-directional: a reported excess is real). Plus the exhaustive triangle slice of C01.",
+  "10 000 (quick) / 1.6 M (thorough) valid polygons incl. holes and collapse-prone templates, plus 6 000 / 960 000 nested shapes at the deepest tile matrices of the built-in sets (C04Far); every output vertex must be the centre of a pixel holding an input vertex, sampled points of every output edge must stay within half a pixel of the input boundary, and every sampled location farther than a pixel from the boundary must be covered iff the input covers it. Clause 2 and 3 are sampled (one-directional: a reported excess is real). Plus the exhaustive triangle slice of C01.",
   KERNEL + "Open known findings F5 (invented edge, maxVisits >= 3) and F12 (hole attached to a cancelled zero-area island) are excluded by signature and reported as KNOWN-FINDING.",
   "DESIGN.md §5 C04")
 c("C18", True, PBT + "collapse-biased valid-polygon generators + reference model (routed boundary) with exact explained-edge, hole-containment and signed-area predicates",
